@@ -369,6 +369,7 @@ def _rebuild(op, args):
 
 ZERO = R.const(0)
 ONE = R.const(1)
+numbers.Real.register(R)  # symbolic reals are numbers for ``isinstance(x, numbers.Number)`` guards
 
 
 class Cx:
